@@ -11,7 +11,7 @@ cleanup() { git -C /repo worktree remove --force "$wt" >/dev/null 2>&1; rm -rf "
 trap cleanup EXIT
 demo=$(python3 -c "import json,sys;print(json.load(open('$src/meta.json'))['demo'])")
 run=$(echo "$demo" | grep -o -- '-run [A-Za-z0-9_|]*' | head -1 | awk '{print $2}')
-pkg=$(echo "$demo" | grep -o -- ' \./[a-z/]*/' | head -1 | tr -d ' ')
+pkg=$(echo "$demo" | grep -o -- ' \./[a-z/_]*' | head -1 | tr -d ' ')
 [ -z "$run" ] || [ -z "$pkg" ] && { echo "$name: cannot parse demo command"; exit 2; }
 export GOFLAGS=-mod=mod
 cp "$src/demo_test.go" "$wt/$pkg/zz_seed_demo_test.go"
